@@ -164,6 +164,11 @@ func c17Oracle(c *Ctx, cs c17Case, s *c17Set, frames []c17SampleFrames, withFram
 				if f.Name != "" && !(x.Full == f.Name || strings.HasPrefix(x.Full, f.Name+":")) && c17PlainASCII(f.Name) {
 					bad("C17/frame/name", fmt.Sprintf("Stacks[%d] frame %d: source %q for function %q", a, b, x.Full, f.Name))
 				}
+				// FileName: the function's file name after the documented trimming for the given options —
+				// none configured here, so only the two built-in prefixes go
+				if want := c17TrimDefault(f.File); x.File != want && (c17PlainASCII(f.File) || !s.HasType) {
+					bad("C17/frame/file-name", fmt.Sprintf("Stacks[%d] frame %d (%+q): FileName %+q, the function's file %+q trims to %+q", a, b, f.Name, x.File, f.File, want))
+				}
 				k := f.key()
 				if k0, seen := keyOf[i]; seen && k0 != k {
 					bad("C17/frame/identity-merged", fmt.Sprintf("source %d stands for two different frames %+v and %+v", i, k0, k))
@@ -243,4 +248,15 @@ func c17PlainASCII(s string) bool {
 		}
 	}
 	return true
+}
+
+// c17TrimDefault: trimPath with no -trim_path and no -source_path: only the built-in prefixes
+// "/proc/self/cwd/./" and "/proc/self/cwd/" are removed (= trimPathDefault in Model/Stacks.lean).
+func c17TrimDefault(path string) string {
+	for _, pre := range []string{"/proc/self/cwd/./", "/proc/self/cwd/"} {
+		if strings.HasPrefix(path, pre) {
+			return path[len(pre):]
+		}
+	}
+	return path
 }
